@@ -144,13 +144,25 @@ def live_case(arg):
     with R.Scratch(f'c07l_{idx}') as sc:
         w = World(sc, enc=enc, chunking=chunking, concurrent=conc, async_backend=r.random() < 0.4)
         live = r.randbytes(r.randrange(1, 3 * mx))
-        mode = r.choice(['grow', 'grow', 'shrink', 'empty'])
+        mode = r.choice(['grow', 'grow', 'shrink', 'empty', 'removed', 'denied'])
         k = r.choice([1, 2, 3, 5, 6, 7, 9, 13, 4, 8])
         post = live + r.randbytes(k) if mode == 'grow' else live[:max(0, len(live) - k)] if mode == 'shrink' else b''
         fs = {'a.log': live, 'data.bin': r.randbytes(60 * mx + r.randrange(4)), 'more.bin': r.randbytes(25 * mx + r.randrange(4))}
+        if mode in ('removed', 'denied'):
+            # the file vanishes / can no longer be opened when its turn comes; a smaller file is streamed before it
+            from ..impl.livefile import DENY
+            fs['a.log'] = live = live + r.randbytes(8)
+            fs['z.cfg'] = r.randbytes(r.choice([1, 2, 3, 5, 6, 7]))
+            post = b''
         w.snapshot(0, fs)
-        with live_edit(w.src / 'a.log', post) as st:
-            second = w.snapshot(0, fs)
+        try:
+            with live_edit(w.src / 'a.log', post if mode not in ('removed', 'denied') else (None if mode == 'removed' else DENY)) as st:
+                second = w.snapshot(0, fs)
+            st['done'] = st['done'] or bool(st.get('fired'))
+        except Exception as e:  # noqa: BLE001   (a command that refuses such a tree stores nothing: nothing to compare)
+            res['summary'] = {'enc': enc, 'chunking': list(chunking), 'concurrent': conc, 'mode': mode + ':snapshot-raised:' + type(e).__name__, 'delta': 0, 'live': len(live),
+                              'edited-when-read': True, 'reuploaded': 0, 'bound': 0, 'unchanged-bytes': 0}
+            return res
         cid2len = {c_id: len(c_bytes) for c_bytes, c_id in w.contents.items()}
         again = sum(cid2len[w.chunk_names[l][1]] for l in set(second['uploaded']))
         bound = len(post) + 3 + 18 * mx
